@@ -33,7 +33,7 @@ def histories(bg, rng, tier):
         w = ALPHABET if rng.random() < 0.5 else ALPHABET[:12] + ["begin_function 1 _ 0 3", "begin_block _", "ret", "end_function"] * 2
         yield [rng.choice(w) for _ in range(n)]
     # every generated block / terminator method once, with and without a selected block
-    for name in sorted(bg.res):
+    for name in bg.emitting_methods():
         sk = bg.sink_of(name)
         if sk in ("block", "end_block"):
             for pt in (("end", "begin", "fb0", "fe0") if name.startswith("insert_") else ("end",)):
@@ -66,6 +66,7 @@ def run(rep):
         rng = random.Random(rep.seed)
         lay = layout.Layout(g)
         bg = bldgen.BuilderGen(g, p.facts, rng)
+        bg.lay = lay
         hs = list(histories(bg, rng, rep.tier))
         lines = ["bld " + " | ".join(h) for h in hs]
         files, err = streams.serve_both("c12", lines, p.exe, mexe)
